@@ -313,4 +313,250 @@ theorem contractTwoTtns_built (kv bv : Nat → Asg Leg → R) (t : Tree) (hnd : 
 
 end ss
 
+/-! ### expectation_value -/
+
+theorem soContractAny_built {state op : Net} {braOf : Nat → Node → T} {d : Dict} {i next : Nat} {r : T}
+    {l1 l2 : List (LeafT R)} {l3 : Node → List (LeafT R)} {lv : Nat → List (LeafT R)}
+    (h : soContractAny i next state op braOf d = some r)
+    (h1 : ∀ t1, state.tensor i = some t1 → BuiltL t1 l1) (h2 : ∀ t2, op.tensor i = some t2 → BuiltL t2 l2)
+    (h3 : ∀ n1, state.node i = some n1 → BuiltL (braOf i n1) (l3 n1))
+    (hc : ∀ n1, state.node i = some n1 → ∀ n ∈ n1.nbrs, n ≠ next → ∀ blk, d (n, i) = some blk → BuiltL blk (lv n)) :
+    ∃ n1, state.node i = some n1 ∧
+      BuiltL r (((l1 ++ (if n1.isLeaf then [] else (n1.nbrs.filter (· ≠ next)).flatMap lv)) ++ l2) ++ l3 n1) := by
+  unfold soContractAny at h
+  split at h
+  · rename_i n1 t1 n2 t2 hn1 ht1 hn2 ht2
+    exact ⟨n1, hn1, opContractAnyNodeEnvironmentButOne_built h (h1 t1 ht1) (h2 t2 ht2) (h3 n1 hn1) (hc n1 hn1)⟩
+  · simp at h
+
+theorem soStep_built {state op : Net} {braOf : Nat → Node → T} {d d' : Dict} {i : Nat}
+    {l1 l2 : List (LeafT R)} {l3 : Node → List (LeafT R)} {lv : Nat → List (LeafT R)}
+    (h : soStep state op braOf d i = some d')
+    (h1 : ∀ t1, state.tensor i = some t1 → BuiltL t1 l1) (h2 : ∀ t2, op.tensor i = some t2 → BuiltL t2 l2)
+    (h3 : ∀ n1, state.node i = some n1 → BuiltL (braOf i n1) (l3 n1))
+    (hc : ∀ n1, state.node i = some n1 → ∀ p, n1.parent = some p → ∀ n ∈ n1.nbrs, n ≠ p →
+      ∀ blk, d (n, i) = some blk → BuiltL blk (lv n)) :
+    ∃ n1 p, state.node i = some n1 ∧ n1.parent = some p ∧ ∀ k blk, d' k = some blk →
+      (k = (i, p) ∧
+        BuiltL blk (((l1 ++ (if n1.isLeaf then [] else (n1.nbrs.filter (· ≠ p)).flatMap lv)) ++ l2) ++ l3 n1)) ∨
+      (k ≠ (i, p) ∧ d k = some blk) := by
+  unfold soStep at h
+  split at h
+  · simp at h
+  · rename_i node hnode
+    split at h
+    · simp at h
+    · rename_i p hp
+      split at h
+      · simp at h
+      · rename_i block hblock
+        obtain ⟨n1, hn1, hb⟩ := soContractAny_built hblock h1 h2 h3 (fun n1 hn1 => hc n1 hn1 p (by
+          rw [hnode] at hn1; simp only [Option.some.injEq] at hn1; subst hn1; exact hp))
+        rw [hnode] at hn1; simp only [Option.some.injEq] at hn1; subst hn1
+        refine ⟨node, p, hnode, hp, fun k blk hk => ?_⟩
+        have := Dict.deleteAll_some _ h hk
+        unfold Dict.add at this
+        by_cases e : k = (i, p)
+        · rw [if_pos e] at this
+          simp only [Option.some.injEq] at this
+          subst this
+          exact Or.inl ⟨e, hb⟩
+        · rw [if_neg e] at this
+          exact Or.inr ⟨e, this⟩
+
+theorem soContractNodeWithEnvironment_built {state op : Net} {braOf : Nat → Node → T} {d : Dict} {i : Nat} {r : T}
+    {l1 l2 : List (LeafT R)} {l3 : Node → List (LeafT R)} {lv : Nat → List (LeafT R)}
+    (h : soContractNodeWithEnvironment i state op braOf d = some r)
+    (h1 : ∀ t1, state.tensor i = some t1 → BuiltL t1 l1) (h2 : ∀ t2, op.tensor i = some t2 → BuiltL t2 l2)
+    (h3 : ∀ n1, state.node i = some n1 → BuiltL (braOf i n1) (l3 n1))
+    (hc : ∀ n1, state.node i = some n1 → ∀ n ∈ n1.nbrs, ∀ blk, d (n, i) = some blk → BuiltL blk (lv n)) :
+    ∃ n1, state.node i = some n1 ∧ BuiltL r (l3 n1 ++ ((l1 ++ n1.nbrs.flatMap lv) ++ l2)) := by
+  unfold soContractNodeWithEnvironment at h
+  split at h
+  · rename_i n1 t1 n2 t2 hn1 ht1 hn2 ht2
+    exact ⟨n1, hn1, opContractNodeWithEnvironment_built h (h1 t1 ht1) (h2 t2 ht2) (h3 n1 hn1) (hc n1 hn1)⟩
+  · simp at h
+
+theorem expectationValue_some {state op : Net} {braOf : Nat → Node → T} {r : T}
+    (h : expectationValue state op braOf = some r) :
+    ∃ d, soLoop state op braOf state.order.dropLast Dict.empty = some d ∧
+      soContractNodeWithEnvironment state.root state op braOf d = some r := by
+  unfold expectationValue at h
+  simp only at h
+  split at h
+  · simp at h
+  · split at h
+    · simp at h
+    · rename_i d hd
+      exact ⟨d, hd, h⟩
+
+section so
+variable (s1 s2 : Net) (opKids : Nat → List Nat) (kv ov bv : Nat → Asg Leg → R)
+
+/-- the three node tensors of node `i`: ket, operator (with the operator's child order), bra (= the conjugated
+ket tensor, on the ket's node) -/
+def soNodeLeaves (i : Nat) (p : Option Nat) (kids : List Nat) : List (LeafT R) :=
+  [((gKetT i ⟨p, kids⟩).legs, kv i), ((gOpT i ⟨p, opKids i⟩).legs, ov i), ((gBraT i ⟨p, kids⟩).legs, bv i)]
+
+def soLeaves (p : Option Nat) (t : Tree) : List (LeafT R) := treeLeaves (soNodeLeaves opKids kv ov bv) p t
+
+mutual
+theorem soBlock_built : ∀ (t : Tree) (p : Nat), t.ids.Nodup → p ∉ t.ids →
+    RepO s1 s2 opKids (Tree.info (some p) t) → BuiltL (soBlock t p) (soLeaves opKids kv ov bv (some p) t)
+  | .node i ks, p, hnd, hp, hrep => by
+    have hnd' := hnd
+    simp only [Tree.ids, List.nodup_cons] at hnd'
+    have hp' := hp
+    simp only [Tree.ids, List.mem_cons, not_or] at hp'
+    have hkids := soBlock_builtL ks i hnd'.2 hnd'.1 (fun e he => hrep e (by simp [Tree.info, he]))
+    obtain ⟨df, _, hf2⟩ := soLoop_forest s1 s2 opKids ks i Dict.empty hnd'.2 hnd'.1
+      (fun e he => hrep e (by simp [Tree.info, he])) (fun _ _ _ => rfl)
+    have hrep1 : RepO s1 s2 opKids [(i, some p, ks.map Tree.id)] := by
+      intro e he
+      simp only [List.mem_singleton] at he
+      subst he
+      exact hrep _ (by simp [Tree.info])
+    obtain ⟨d', hs1, hs2⟩ := soStep_node s1 s2 opKids i p ks df hnd hp hrep1
+      (fun n hn => by rw [hf2 (n, i), soKidBlock_of_mem ks i n hn])
+    obtain ⟨h1, h2, h3, h4, hperm⟩ := hrep1 (i, some p, ks.map Tree.id) (by simp)
+    simp only at h1 h2 h3 h4 hperm
+    have hkn : (ks.map Tree.id).Nodup := Tree.nodup_kid_ids ks hnd'.2
+    have hpk : p ∉ ks.map Tree.id := fun hm => hp'.2 (Tree.kid_id_mem ks p hm)
+    have hik : i ∉ ks.map Tree.id := fun hm => hnd'.1 (Tree.kid_id_mem ks i hm)
+    obtain ⟨n1, p1, hn1, hp1, hall⟩ := soStep_built (R := R)
+      (l1 := [((gKetT i ⟨some p, ks.map Tree.id⟩).legs, kv i)])
+      (l2 := [((gOpT i ⟨some p, opKids i⟩).legs, ov i)])
+      (l3 := fun n1 => [((gBraT i n1).legs, bv i)])
+      (lv := lvOf (soLeaves opKids kv ov bv (some i)) ks) hs1
+      (fun t1 ht1 => by
+        rw [h2] at ht1; simp only [Option.some.injEq] at ht1; subst ht1
+        exact BuiltL.fresh _ _)
+      (fun t2 ht2 => by
+        rw [h4] at ht2; simp only [Option.some.injEq] at ht2; subst ht2
+        exact BuiltL.fresh _ _)
+      (fun n1 _ => BuiltL.fresh _ _)
+      (fun n1 hn1 p1 hp1 n hn hne blk hblk => by
+        rw [h1] at hn1; simp only [Option.some.injEq] at hn1; subst hn1
+        simp only [Option.some.injEq] at hp1; subst hp1
+        have hn' : n ∈ ks.map Tree.id := by
+          simp only [Node.nbrs, Option.toList_some, List.singleton_append, List.mem_cons] at hn
+          rcases hn with e | hn
+          · exact absurd e hne
+          · exact hn
+        rw [hf2 (n, i)] at hblk
+        obtain ⟨c0, hc0, hcn⟩ := List.mem_map.1 hn'
+        have hsome : (ks.find? (fun c => c.id == n)).isSome := by
+          rw [List.find?_isSome]; exact ⟨c0, hc0, by simp [hcn]⟩
+        obtain ⟨c, hc⟩ := Option.isSome_iff_exists.1 hsome
+        obtain ⟨hcm, hcid⟩ := find_kid hc
+        simp only [soKidBlock, hc, if_true, Option.map_some] at hblk
+        simp only [Option.some.injEq] at hblk
+        subst hblk
+        simp only [lvOf, hc, Option.map_some, Option.getD_some]
+        exact hkids c hcm)
+    rw [h1] at hn1; simp only [Option.some.injEq] at hn1; subst hn1
+    simp only [Option.some.injEq] at hp1; subst hp1
+    have hd' : d' (i, p) = some (soBlock (Tree.node i ks) p) := by
+      rw [hs2 (i, p)]
+      have hnk : (i, p) ∉ (ks.map Tree.id).map (fun c => (c, i)) := by
+        intro hm
+        obtain ⟨n, hn, e⟩ := List.mem_map.1 hm
+        exact hik ((Prod.mk.inj e).1 ▸ hn)
+      rw [if_neg hnk, if_pos rfl]
+    rcases hall (i, p) _ hd' with ⟨_, hb⟩ | ⟨hne, _⟩
+    · refine hb.perm ?_
+      have hfilter : (Node.mk (some p) (ks.map Tree.id)).nbrs.filter (· ≠ p) = ks.map Tree.id := by
+        have := filter_ne_mid [] (ks.map Tree.id) p (by simp) hpk
+        simpa [Node.nbrs] using this
+      rw [hfilter, lvOf_flatMap _ ks hkn]
+      simp only [soLeaves, treeLeaves, soNodeLeaves, treeLeavesL_eq]
+      cases ks with
+      | nil => simp [Node.isLeaf]
+      | cons c cs =>
+        simp only [Node.isLeaf, List.map_cons, List.isEmpty_cons, Bool.false_eq_true, if_false]
+        simp only [List.cons_append, List.nil_append, List.append_assoc]
+        refine List.Perm.cons _ ?_
+        exact List.perm_append_comm.trans (List.Perm.refl _)
+    · exact absurd rfl hne
+theorem soBlock_builtL : ∀ (ts : List Tree) (i : Nat), (Tree.idsL ts).Nodup → i ∉ Tree.idsL ts →
+    RepO s1 s2 opKids (Tree.infoL i ts) →
+    ∀ c ∈ ts, BuiltL (soBlock c i) (soLeaves opKids kv ov bv (some i) c)
+  | [], _, _, _, _ => fun c hc => absurd hc (List.not_mem_nil)
+  | c :: cs, i, hnd, hi, hrep => by
+    simp only [Tree.idsL, List.nodup_append] at hnd
+    simp only [Tree.idsL, List.mem_append, not_or] at hi
+    intro c' hc'
+    rcases List.mem_cons.1 hc' with h | hc'
+    · rw [h]; exact soBlock_built c i hnd.1 hi.1 (fun e he => hrep e (by simp [Tree.infoL, he]))
+    · exact soBlock_builtL cs i hnd.2.1 hi.2 (fun e he => hrep e (by simp [Tree.infoL, he])) c' hc'
+end
+
+/-- **The tensor `expectation_value` returns is built from exactly the ket, operator and bra tensors of all
+nodes.** -/
+theorem expectationValue_built (kv ov bv : Nat → Asg Leg → R) (t : Tree) (hnd : t.ids.Nodup)
+    (opKids : Nat → List Nat) (hperm : ∀ e ∈ Tree.info none t, (opKids e.1).Perm e.2.2) :
+    BuiltL (⟨[], soRootBinds t⟩ : T) (soLeaves opKids kv ov bv none t) := by
+  have heq := expectationValue_eq t hnd opKids hperm
+  obtain ⟨d, hd, hroot⟩ := expectationValue_some heq
+  obtain ⟨r, ks⟩ := t
+  have hrep : RepO (netOf (.node r ks) (fun _ ks => ks) gKetT) (netOf (.node r ks) (fun i _ => opKids i) gOpT)
+      opKids (Tree.info none (.node r ks)) := by
+    intro e he
+    have h1 := netOf_node (.node r ks) (fun _ ks => ks) gKetT hnd e he
+    have h2 := netOf_node (.node r ks) (fun i _ => opKids i) gOpT hnd e he
+    exact ⟨h1.1, h1.2, h2.1, h2.2, hperm e he⟩
+  have hnd' := hnd
+  simp only [Tree.ids, List.nodup_cons] at hnd'
+  obtain ⟨d0, hl, hd0⟩ := soLoop_forest _ _ opKids ks r Dict.empty hnd'.2 hnd'.1
+    (fun e he => hrep e (by simp [Tree.info, he])) (fun _ _ _ => rfl)
+  have horder : (netOf (.node r ks) (fun _ ks => ks) gKetT).order.dropLast = Tree.postL ks := by
+    show (Tree.postL ks ++ [r]).dropLast = _
+    simp
+  rw [horder, hl] at hd
+  simp only [Option.some.injEq] at hd
+  subst hd
+  have hkids := soBlock_builtL _ _ opKids kv ov bv ks r hnd'.2 hnd'.1 (fun e he => hrep e (by simp [Tree.info, he]))
+  obtain ⟨h1, h2, h3, h4, hp⟩ := hrep (r, none, ks.map Tree.id) (by simp [Tree.info])
+  simp only at h1 h2 h3 h4 hp
+  have hkn : (ks.map Tree.id).Nodup := Tree.nodup_kid_ids ks hnd'.2
+  have hr1 : (netOf (.node r ks) (fun _ ks => ks) gKetT).root = r := rfl
+  rw [hr1] at hroot
+  obtain ⟨n1, hn1, hb⟩ := soContractNodeWithEnvironment_built (R := R)
+    (l1 := [((gKetT r ⟨none, ks.map Tree.id⟩).legs, kv r)])
+    (l2 := [((gOpT r ⟨none, opKids r⟩).legs, ov r)])
+    (l3 := fun n1 => [((gBraT r n1).legs, bv r)])
+    (lv := lvOf (soLeaves opKids kv ov bv (some r)) ks) hroot
+    (fun t1 ht1 => by
+      rw [h2] at ht1; simp only [Option.some.injEq] at ht1; subst ht1
+      exact BuiltL.fresh _ _)
+    (fun t2 ht2 => by
+      rw [h4] at ht2; simp only [Option.some.injEq] at ht2; subst ht2
+      exact BuiltL.fresh _ _)
+    (fun n1 _ => BuiltL.fresh _ _)
+    (fun n1 hn1 n hn blk hblk => by
+      rw [h1] at hn1; simp only [Option.some.injEq] at hn1; subst hn1
+      have hn' : n ∈ ks.map Tree.id := by simpa [Node.nbrs] using hn
+      rw [hd0 (n, r)] at hblk
+      obtain ⟨c0, hc0, hcn⟩ := List.mem_map.1 hn'
+      have hsome : (ks.find? (fun c => c.id == n)).isSome := by
+        rw [List.find?_isSome]; exact ⟨c0, hc0, by simp [hcn]⟩
+      obtain ⟨c, hc⟩ := Option.isSome_iff_exists.1 hsome
+      obtain ⟨hcm, hcid⟩ := find_kid hc
+      simp only [soKidBlock, hc, if_true, Option.map_some] at hblk
+      simp only [Option.some.injEq] at hblk
+      subst hblk
+      simp only [lvOf, hc, Option.map_some, Option.getD_some]
+      exact hkids c hcm)
+  rw [h1] at hn1; simp only [Option.some.injEq] at hn1; subst hn1
+  refine hb.perm ?_
+  have hnb : (Node.mk none (ks.map Tree.id)).nbrs = ks.map Tree.id := by simp [Node.nbrs]
+  rw [hnb, lvOf_flatMap _ ks hkn]
+  simp only [soLeaves, treeLeaves, soNodeLeaves, treeLeavesL_eq]
+  simp only [List.cons_append, List.nil_append]
+  refine (List.Perm.swap _ _ _).trans (List.Perm.cons _ ?_)
+  refine (List.Perm.cons _ List.perm_append_comm).trans ?_
+  exact List.Perm.swap _ _ _
+
+end so
+
 end Ptn.C04
